@@ -159,6 +159,21 @@ def eval_cross(i, scn):
     other = dict(c, pca="none" if c["pca"] == "all" else "all")
     m3 = CW.fit(other, cw)
     cross_equal(ck, "C10_PcaAllIsNoPca", m, m3, pred, f"{c['fam']} use_pca={c['pca']} vs {other['pca']}")
+    # ... also for the Hilbert members of the family: the Hilbert transform acts along the samples and commutes with the
+    # (real, linear) change of basis of a PCA that keeps every component
+    if c["dtype"] == "real" and i % 3 == 1 and pred["sumsq"] > 0:     # (no covariance at all: the values are rounding noise)
+        try:
+            hcls = getattr(xe.cross, "Hilbert" + c["fam"])
+            kwn, kwa = CW.model_kwargs(dict(c, pca="none")), CW.model_kwargs(dict(c, pca="all"))
+            with warnings.catch_warnings():
+                warnings.simplefilter("ignore")
+                h1 = hcls(padding="none", **kwn).fit(cw.X(), cw.Y(), "time")
+                h2 = hcls(padding="none", **kwa).fit(cw.X(), cw.Y(), "time")
+            a_, b_ = np.asarray(h1.data["singular_values"].values, float), np.asarray(h2.data["singular_values"].values, float)
+            ck.m(a_.shape == b_.shape and np.allclose(a_, b_, rtol=1e-7, atol=1e-9 * max(a_.max(initial=0), float(np.max(m.data["singular_values"].values)), 1e-300)), "C10", "C10_PcaAllIsNoPca",
+                 f"Hilbert{c['fam']} alpha={pred['alpha']}: singular values without pre-reduction {a_.tolist()} differ from those with every principal component kept {b_.tolist()}")
+        except Exception as e:  # noqa
+            ck.d(False, "C10", "C10_PcaAllIsNoPca", f"Hilbert{c['fam']} with / without PCA raised {type(e).__name__}: {str(e)[:120]}")
     # two-view multi-set CCA finds the same canonical correlations as cross-set CCA
     if c["fam"] == "CCA" and c["dtype"] == "real" and c["pca"] == "none" and min(cw.px, cw.py) >= 2:   # multi.CCA refuses single-feature views
         k = pred["k"]
